@@ -164,6 +164,8 @@ struct Ctx {
     unforwardable_clusters: BTreeSet<u64>,
     /// clusters whose AddCluster the main state accepted and a proxy refused
     failed_clusters: BTreeSet<u64>,
+    /// number of AddCluster commands per cluster id that the main state accepted
+    cluster_adds: BTreeMap<u64, u32>,
     /// causes of a SoftStop that never completes, seen in this case
     rml_unknown: bool,
     rml_live: bool,
@@ -201,6 +203,7 @@ impl Ctx {
             unforwardable_slots: BTreeSet::new(),
             unforwardable_clusters: BTreeSet::new(),
             failed_clusters: BTreeSet::new(),
+            cluster_adds: BTreeMap::new(),
             rml_unknown: false,
             rml_live: false,
             token_reused: false,
@@ -331,6 +334,9 @@ impl Ctx {
                 if ws.get(3) == Some(&"0") {
                     c.answer_503 = Some("this is not an HTTP response".into());
                 }
+                let knobs = n(4).unwrap_or(0);
+                c.https_redirect = knobs & 1 == 1;
+                c.sticky_session = knobs & 2 == 2;
                 RequestType::AddCluster(c)
             }
             "rmcluster" => RequestType::RemoveCluster(format!("c{}", n(1)?)),
@@ -562,6 +568,10 @@ impl Ctx {
         let mut udp = vec![];
         let mut be = vec![];
         let known = ci.is_some();
+        let knobs = ci
+            .and_then(|c| c.configuration.as_ref())
+            .map(|c| c.https_redirect as u8 + 2 * c.sticky_session as u8)
+            .unwrap_or(0);
         if let Some(ci) = ci {
             let fk = |f: &RequestHttpFrontend| -> (u64, u64) {
                 let h = HOSTS.iter().position(|x| *x == f.hostname).unwrap_or(9) as u64;
@@ -592,8 +602,9 @@ impl Ctx {
         let pairs = |v: &Vec<(u64, u64)>, sep: &str| v.iter().map(|(a, b)| format!("{a}{sep}{b}")).collect::<Vec<_>>().join(",");
         let nats = |v: &Vec<u64>| v.iter().map(|a| a.to_string()).collect::<Vec<_>>().join(",");
         format!(
-            " info=known:{} http:[{}] https:[{}] tcp:[{}] udp:[{}] be:[{}]",
+            " info=known:{} knobs:{} http:[{}] https:[{}] tcp:[{}] udp:[{}] be:[{}]",
             known as u8,
+            knobs,
             pairs(&http, ":"),
             pairs(&https, ":"),
             nats(&tcp),
@@ -621,6 +632,12 @@ impl Ctx {
         }
         if ws[0] == "addcluster" && differs {
             self.failed_clusters.insert(n(1));
+        }
+        if ws[0] == "addcluster" && accepted {
+            *self.cluster_adds.entry(n(1)).or_insert(0) += 1;
+        }
+        if ws[0] == "rmcluster" && accepted {
+            self.cluster_adds.remove(&n(1));
         }
         match ws[0] {
             "addl" => {
@@ -675,11 +692,11 @@ impl Ctx {
 // ------------------------------------------------------------ behaviour ----
 
 /// connect + one request; which backend (index) saw it, and the client's status line
-fn http_probe(ctx: &mut Ctx, addr: SocketAddr, host: &str, method: &str, path: &str, marker: &str) -> (bool, Option<usize>, Option<u16>) {
-    let Ok(mut c) = RawConn::connect(addr) else { return (false, None, None) };
+fn http_probe(ctx: &mut Ctx, addr: SocketAddr, host: &str, method: &str, path: &str, marker: &str) -> (bool, Option<usize>, Option<u16>, String) {
+    let Ok(mut c) = RawConn::connect(addr) else { return (false, None, None, String::new()) };
     let req = format!("{method} {path} HTTP/1.1\r\nHost: {host}\r\nX-Probe: {marker}\r\nContent-Length: 0\r\nConnection: close\r\n\r\n");
     if c.write_all(req.as_bytes(), T).is_err() {
-        return (true, None, None);
+        return (true, None, None, String::new());
     }
     let deadline = Instant::now() + Duration::from_millis(350);
     let mut reached = None;
@@ -699,14 +716,18 @@ fn http_probe(ctx: &mut Ctx, addr: SocketAddr, host: &str, method: &str, path: &
         if let Some(p) = find(&c.received, b"\r\n") {
             let line = String::from_utf8_lossy(&c.received[..p]).to_string();
             status = line.split(' ').nth(1).and_then(|s| s.parse::<u16>().ok());
-            break;
+            // the whole head, for the header checks
+            if find(&c.received, b"\r\n\r\n").is_some() {
+                break;
+            }
         }
         if c.eof {
             break;
         }
     }
+    let head = String::from_utf8_lossy(&c.received).to_lowercase();
     c.close();
-    (true, reached, status)
+    (true, reached, status, head)
 }
 
 fn tcp_probe(ctx: &mut Ctx, addr: SocketAddr, marker: &str) -> (bool, Option<usize>) {
@@ -834,7 +855,46 @@ fn check_view_and_behaviour(ctx: &mut Ctx, keys_seen: &BTreeSet<(u64, u64)>) {
                 }
                 marker_n += 1;
                 let marker = format!("probe{marker_n}x");
-                let (_, reached, status) = http_probe(ctx, addr, HOSTS[hi], method, PROBE_PATHS[pi], &marker);
+                let (_, reached, status, head) = http_probe(ctx, addr, HOSTS[hi], method, PROBE_PATHS[pi], &marker);
+                // ---- the cluster's routing knobs, as the view has them (AddCluster is an upsert)
+                if let Some(cfg) = clusters.iter().next().and_then(|cid| ctx.master.clusters.get(cid)).cloned() {
+                    let cnum = cfg.cluster_id.trim_start_matches('c').parse::<u64>().unwrap_or(99);
+                    if ctx.failed_clusters.contains(&cnum) {
+                        ctx.tags.push("behaviour-skipped:cluster-command-outcome-differs".into());
+                    } else if !ctx.failed_front.contains(&(false, slot, *key))
+                        && !ctx.reactivated.contains(&("h".to_string(), slot))
+                        && !ctx.removed_once.contains(&("h".to_string(), slot))
+                        && !ctx.token_reused
+                    {
+                        let cause = if ctx.cluster_adds.get(&cnum).copied().unwrap_or(0) > 1 { "cluster-updated" } else { "other" };
+                        let has_backend = ctx.master.backends.get(&cfg.cluster_id).map(|b| !b.is_empty()).unwrap_or(false);
+                        ctx.tags.push(format!("knob-probe:redirect={}:sticky={}", cfg.https_redirect as u8, cfg.sticky_session as u8));
+                        if cfg.https_redirect {
+                            if status != Some(301) || reached.is_some() {
+                                ctx.oracle.push((
+                                    format!("behaviour-differs-from-view:{cause}"),
+                                    format!("http slot {slot} key {key}: the view says https_redirect=true for {}, the request got status {status:?}, reached backend {reached:?}", cfg.cluster_id),
+                                ));
+                            }
+                            continue;
+                        } else if status == Some(301) {
+                            ctx.oracle.push((
+                                format!("behaviour-differs-from-view:{cause}"),
+                                format!("http slot {slot} key {key}: the view says https_redirect=false for {}, the request was redirected (301)", cfg.cluster_id),
+                            ));
+                            continue;
+                        }
+                        if reached.is_some() && has_backend && status == Some(200) {
+                            let cookie = head.contains("set-cookie: sozubalanceid=");
+                            if cookie != cfg.sticky_session {
+                                ctx.oracle.push((
+                                    format!("behaviour-differs-from-view:{cause}"),
+                                    format!("http slot {slot} key {key}: the view says sticky_session={} for {}, sticky Set-Cookie present: {cookie}", cfg.sticky_session, cfg.cluster_id),
+                                ));
+                            }
+                        }
+                    }
+                }
                 let expected: BTreeSet<usize> = match clusters.iter().next() {
                     Some(cid) if ctx.master.clusters.contains_key(cid) => ctx
                         .master
@@ -1056,7 +1116,16 @@ fn gen_case(rng: &mut Rng, thorough: bool) -> Vec<String> {
             let hc = clean || !rng.chance(1, 10);
             // a custom 503 template that does not parse: the HTTP / HTTPS proxy fails iff it has a listener
             let tpl = clean || !rng.chance(1, 8);
-            ops.push(format!("addcluster {c} {} {}", hc as u8, tpl as u8));
+            // routing knobs (bit 0 https_redirect, bit 1 sticky_session): a re-AddCluster of a known id
+            // is an update and usually changes them
+            let knobs = if sh.clusters.contains(&c) {
+                rng.below(4)
+            } else if rng.chance(1, 4) {
+                rng.below(4)
+            } else {
+                0
+            };
+            ops.push(format!("addcluster {c} {} {} {knobs}", hc as u8, tpl as u8));
             if hc {
                 sh.clusters.insert(c);
             }
@@ -1569,17 +1638,17 @@ impl Area for WorkerArea {
             // RemoveListener of an unknown address: HTTP says OK, TCP says FAILURE, both decrement base_sessions_count
             v(&["new w", "addl h 0 1", "addl t 1 1", "rml h 3", "rml t 3", "plain SoftStop 1"]),
             // F8/F22: a command the main state accepts and the proxy refuses stays in both views, not in the behaviour
-            v(&["new w", "addl h 0 1", "act h 0", "addcluster 0 1 1", "addbackend 0 0 0", "addf h 0 0 0 h", "qcluster 0"]),
-            v(&["new w", "addcluster 0 1 1", "addbackend 0 0 0", "addf h 0 0 0 -", "addl h 0 1", "act h 0", "qcluster 0"]),
+            v(&["new w", "addl h 0 1", "act h 0", "addcluster 0 1 1 0", "addbackend 0 0 0", "addf h 0 0 0 h", "qcluster 0"]),
+            v(&["new w", "addcluster 0 1 1 0", "addbackend 0 0 0", "addf h 0 0 0 -", "addl h 0 1", "act h 0", "qcluster 0"]),
             v(&["new w", "addl4 t 1 2", "addl t 1 1", "act t 1", "addbackend 2 1 1"]),
             v(&["new w", "addl h 0 0", "act h 0"]),
             // F8: commands answered FAILURE stay in the view (no listener at the address: nothing to probe)
-            v(&["new w", "addl h 0 1", "act h 0", "addcluster 0 1 1", "addbackend 0 0 0", "addf h 3 0 0 -", "addf h 0 30 0 r", "rmbackend 0 1 1", "qcluster 0"]),
+            v(&["new w", "addl h 0 1", "act h 0", "addcluster 0 1 1 0", "addbackend 0 0 0", "addf h 3 0 0 -", "addf h 0 30 0 r", "rmbackend 0 1 1", "qcluster 0"]),
             // deactivate then activate: the listener accepts connections and never serves them
-            v(&["new w", "addl h 0 1", "act h 0", "addcluster 0 1 1", "addbackend 0 0 0", "addf h 0 0 0 -", "deact h 0", "act h 0", "qcluster 0"]),
-            v(&["new w", "addl t 1 1", "act t 1", "addcluster 1 1 1", "addbackend 1 1 1", "addl4 t 1 1", "deact t 1", "act t 1", "qcluster 1"]),
+            v(&["new w", "addl h 0 1", "act h 0", "addcluster 0 1 1 0", "addbackend 0 0 0", "addf h 0 0 0 -", "deact h 0", "act h 0", "qcluster 0"]),
+            v(&["new w", "addl t 1 1", "act t 1", "addcluster 1 1 1 0", "addbackend 1 1 1", "addl4 t 1 1", "deact t 1", "act t 1", "qcluster 1"]),
             // remove an active listener and add it again: every command OK, the frontends of the view are not served
-            v(&["new w", "addl h 1 1", "act h 1", "addcluster 2 1 1", "addbackend 2 1 1", "addf h 1 10 2 -", "rml h 1", "addl h 1 1", "act h 1"]),
+            v(&["new w", "addl h 1 1", "act h 1", "addcluster 2 1 1 0", "addbackend 2 1 1", "addf h 1 10 2 -", "rml h 1", "addl h 1 1", "act h 1"]),
             // a token freed by DeactivateListener is handed to the next listener: same proxy -> FAILURE, other proxy -> shared token
             v(&["new w", "addl s 3 1", "act s 3", "deact s 3", "addl s 0 1", "act s 0"]),
             v(&["new w", "addl u 0 1", "act u 0", "deact u 0", "addl t 2 1", "act t 2", "act u 0", "addl4 t 2 0", "addbackend 0 0 0"]),
@@ -1590,12 +1659,19 @@ impl Area for WorkerArea {
             v(&["new w", "addl t 0 1", "act t 0", "addl4 t 0 0", "addbackend 0 0 0", "addbackend 0 2 0", "rmbackend 0 2 0"]),
             // a destined proxy fails in a four-way fan-out (AddCluster with a template that does not parse):
             // one FAILURE, the other three proxies and both views take the cluster
-            v(&["new w", "addl h 0 1", "addl t 1 1", "addcluster 0 1 0", "addcluster 1 1 1", "qcluster 0", "plain Status 1"]),
-            v(&["new w", "addl t 1 1", "addcluster 0 1 0", "addl s 2 1", "addcluster 0 1 0", "qcluster 0"]),
+            v(&["new w", "addl h 0 1", "addl t 1 1", "addcluster 0 1 0 0", "addcluster 1 1 1 0", "qcluster 0", "plain Status 1"]),
+            v(&["new w", "addl t 1 1", "addcluster 0 1 0 0", "addl s 2 1", "addcluster 0 1 0 0", "qcluster 0"]),
+            // cluster updates: a second AddCluster of a known id with other knobs and the same (or other)
+            // answers is applied by the plain-HTTP proxy too: 301 instead of forwarding, sticky cookie on / off
+            v(&["new w", "addl h 0 1", "act h 0", "addcluster 0 1 1 0", "addbackend 0 0 0", "addf h 0 0 0 -", "addcluster 0 1 1 1", "qcluster 0"]),
+            v(&["new w", "addl h 0 1", "act h 0", "addcluster 0 1 1 1", "addbackend 0 0 0", "addf h 0 0 0 -", "addcluster 0 1 1 0", "qcluster 0"]),
+            v(&["new w", "addl h 0 1", "act h 0", "addcluster 0 1 1 0", "addbackend 0 0 0", "addf h 0 10 0 -", "addcluster 0 1 1 2", "qcluster 0"]),
+            v(&["new w", "addl h 0 1", "act h 0", "addcluster 0 1 1 2", "addbackend 0 0 0", "addf h 0 10 0 -", "addcluster 0 1 1 0", "qcluster 0"]),
+            v(&["new w", "addl h 0 1", "act h 0", "addcluster 0 1 1 3", "addbackend 0 1 1", "addf h 0 20 0 -", "addcluster 0 1 1 2", "addcluster 0 1 1 2", "qcluster 0"]),
             // an EQUALS rule is deduplicated and removed like the others (F1 of C04 is repaired)
-            v(&["new w", "addl h 0 1", "act h 0", "addcluster 0 1 1", "addbackend 0 0 0", "addf h 0 40 0 e", "addf h 0 40 0 e", "rmf h 0 40 0 e"]),
+            v(&["new w", "addl h 0 1", "act h 0", "addcluster 0 1 1 0", "addbackend 0 0 0", "addf h 0 40 0 e", "addf h 0 40 0 e", "rmf h 0 40 0 e"]),
             // a clean configuration works end to end
-            v(&["new w", "addl h 0 1", "act h 0", "addcluster 0 1 1", "addbackend 0 0 0", "addf h 0 0 0 -", "addf h 0 40 0 e", "addf h 0 120 0 -", "addl t 1 1", "act t 1", "addl4 t 1 0", "qcluster 0", "plain SoftStop 1"]),
+            v(&["new w", "addl h 0 1", "act h 0", "addcluster 0 1 1 0", "addbackend 0 0 0", "addf h 0 0 0 -", "addf h 0 40 0 e", "addf h 0 120 0 -", "addl t 1 1", "act t 1", "addl4 t 1 0", "qcluster 0", "plain SoftStop 1"]),
         ]
     }
     fn gen(&self, rng: &mut Rng, thorough: bool) -> Vec<String> {
